@@ -466,8 +466,7 @@ func (c *PCluster) Truncate(f int, term int64, offset int64) string {
 func (c *PCluster) Crash(i int) error {
 	n := c.Nodes[i]
 	saved := n.dir + "/db.crash"
-	_ = os.RemoveAll(saved)
-	if err := copyDir(n.dir+"/db", saved); err != nil {
+	if err := stableCopy(n.dir+"/db", saved); err != nil {
 		return err
 	}
 	if err := c.Restart(i); err != nil {
